@@ -2,6 +2,7 @@ use crate::rep::Report;
 use crate::Ctx;
 
 pub mod c01;
+pub mod c02;
 pub mod c04;
 pub mod c08;
 pub mod c09;
@@ -15,6 +16,8 @@ pub mod c18;
 pub fn run(prop: &str, ctx: &Ctx, r: &mut Report) -> bool {
 	match prop {
 		"C01" => c01::run(ctx, r),
+		"C02" => c02::run_c02(ctx, r),
+		"C03" => c02::run_c03(ctx, r),
 		"C04" => c04::run(ctx, r),
 		"C08" => c08::run(ctx, r),
 		"C09" => c09::run(ctx, r),
